@@ -629,6 +629,8 @@ func runC14(cfg Config) {
 		}
 		closeP()
 	}
+	// (f) the casync protocol as a whole session: real client, real server, scripted store (protosession.go)
+	runProtoSessions(cfg, rep, m, rng, cfg.N(250, 6000), cfg.N(250, 6000))
 	c14CLI(cfg, rep, rng)
 	c14IndexUpstreams(cfg, rep, rng)
 	rep.Write(cfg.Out)
